@@ -8,7 +8,7 @@
 #
 import re
 
-from ural.patterns import QUERY_VALUE_IN_URL_TEMPLATE
+from ural.patterns import QUERY_VALUE_IN_URL_TEMPLATE, CONTROL_CHARS_RE
 from ural.utils import unquote, urljoin, urlsplit
 
 OBVIOUS_REDIRECTS_RE = re.compile(
@@ -75,9 +75,12 @@ def infer_redirection(url, recursive=True):
                 # (e.g. `http://a.com/?u=//[x`): nothing can be inferred then
                 # NOTE: a url given without scheme has no netloc to join with,
                 # we lend it one for the time of the join
+                # NOTE: the standard parser does not find the scheme behind
+                # leading control characters ("\x85http://...")
                 try:
-                    lent = not urlsplit(url).netloc
-                    target = urljoin("http://" + url if lent else url, potential_target)
+                    base = CONTROL_CHARS_RE.sub("", url).strip()
+                    lent = not urlsplit(base).netloc
+                    target = urljoin("http://" + base if lent else base, potential_target)
 
                     if lent and target.startswith("http://"):
                         target = target[7:]
